@@ -349,8 +349,9 @@ def must_pass_from_entry(body, from_blocks, to_blocks, through_nodes=(), through
     return None
 
 
-def feasible_from(body, starts, prog=None, init=None):
-    """Blocks reachable from `starts` on the product with the finite store (flags, emptiness, variant tags)."""
+def feasible_from(body, starts, prog=None, init=None, stop=()):
+    """Blocks reachable from `starts` on the product with the finite store (flags, emptiness, variant tags); blocks in `stop` are reached
+    but not left."""
     store = Store(body, prog)
     seen = {}
     dq = deque()
@@ -361,6 +362,8 @@ def feasible_from(body, starts, prog=None, init=None):
             dq.append((s, dict(init or {})))
     while dq:
         b, st = dq.popleft()
+        if b in stop:
+            continue
         out = store.transfer_block(b, st)
         for nx in store.feasible_succs(b, out):
             k = (nx, tuple(sorted(out.items())))
